@@ -156,6 +156,28 @@ def main():
                                      delta_real_model={i: now[i] - base[i] for i in range(len(pool)) if now[i] != base[i]}))
                 del c
         gc.enable()
+    # ---- (d) the node-size attributes of the classes: set to legal values, deleted (refused - there is nothing to fall back
+    #          to), set back; the classes work as before (a crash of this process is reported by the driver)
+    for cls in (BT, TS):
+        for name in ('max_leaf_size', 'max_internal_size'):
+            saved = getattr(cls, name)
+            try:
+                delattr(cls, name)
+                out = 'deleted'
+            except (TypeError, AttributeError):
+                out = 'refused'
+            if not hasattr(cls, name):
+                mism.append(dict(fam=fam, kind='class-attribute-gone', real=[cls.__name__, name, out]))
+            setattr(cls, name, saved)
+            counts['class_attr'] = counts.get('class_attr', 0) + 1
+        c = cls()
+        for i in range(24):
+            c.add(key(i)) if cls is TS else c.__setitem__(key(i), val(i))
+        try:
+            c._check()
+        except Exception as e:
+            mism.append(dict(fam=fam, kind='unsound-after-class-attribute-juggling', real=repr(e)))
+        del c
     embed.restore_sizes(old)
     json.dump(dict(counts=counts, mismatches=mism[:40]), open(sys.argv[2], 'w'), default=repr)
 
